@@ -174,7 +174,65 @@ def run_copy_case(c):
   return out
 
 
+def share_scope_probe():
+  """nn.share_scope(wrapper, base): the wrapper's children move into base's scope. Without a name clash the two sets of variables sit side
+  by side under base's name; with a clash (a wrapper child named like a base child) an error is raised in either order"""
+  ones, zeros = nn.initializers.ones, nn.initializers.zeros
+
+  class Base(nn.Module):
+    def setup(self):
+      self.proj = nn.Dense(4, use_bias=False, kernel_init=ones)
+
+    def __call__(self, x):
+      return self.proj(x)
+
+  class Wrapper(nn.Module):
+    base: nn.Module
+    child_name: str = 'proj'
+
+    def setup(self):
+      setattr(self, self.child_name, nn.Dense(4, use_bias=False, kernel_init=zeros))
+      nn.share_scope(self, self.base)
+
+    def __call__(self, x):
+      return self.base(x) + getattr(self, self.child_name)(x)
+
+  class Model(nn.Module):
+    child_name: str = 'proj'
+
+    @nn.compact
+    def __call__(self, x):
+      base = Base()
+      h = base(x)
+      return h + Wrapper(base, self.child_name)(x)
+
+  class LateBase(nn.Module):
+    @nn.compact
+    def __call__(self, x):
+      return nn.Dense(4, use_bias=False, kernel_init=ones, name='proj')(x)
+
+  class ModelMirror(nn.Module):
+    @nn.compact
+    def __call__(self, x):
+      return Wrapper(LateBase())(x)
+  x = jnp.ones((2, 4))
+  out = {}
+
+  def go(model):
+    try:
+      y, v = model.init_with_output(jax.random.key(0), x)
+      return {'y': float(y[0, 0]), 'shapes': sorted('/'.join(str(getattr(k, 'key', k)) for k in p) for p, _ in jax.tree_util.tree_flatten_with_path(flax.core.unfreeze(v))[0])}
+    except Exception as e:  # pylint: disable=broad-except
+      return {'raised': type(e).__name__}
+  out['no_clash'] = go(Model(child_name='extra'))
+  out['clash_base_first'] = go(Model())
+  out['clash_wrapper_first'] = go(ModelMirror())
+  return out
+
+
 def main(payload):
+  if payload.get('share_scope'):
+    return {'share_scope': share_scope_probe()}
   res = []
   for c in payload['cases']:
     try:
